@@ -79,8 +79,6 @@ Definition it_begin_cfg : hset BS -> iter := it_begin BS.
 Definition it_next_cfg : hset BS -> iter -> iter := it_next BS.
 Definition it_get_cfg : hset BS -> iter -> option item := it_get BS.
 Definition it_remove_cfg (c : cfg) : hset BS -> iter -> hset BS * iter := it_remove BS bs0 (c_wf0 c).
-(* the older bucket-wise formulation of Remove(filter) (brem_if), kept as a cross-check of the iterator-machine loop *)
-Definition hremove_if_b_cfg : hset BS -> (item -> bool) -> hset BS * Z := hremove_if BS.
 Definition shape_cfg (c : cfg) : hset BS -> list (Z * list (list Z * bool * Z)) := shape BS (decode_fn (c_bound c)).
 Definition init_cfg : hset BS := hinit BS.
 Definition traverse_cfg : hset BS -> list item := traverse BS.
